@@ -92,7 +92,7 @@ Lemma forallb_digit_app a b : forallb is_digit (a ++ b) = forallb is_digit a && 
 Proof. apply forallb_app. Qed.
 
 Definition fmt_strict (k b : Z) : bool :=
-  (List.length (itoa (f32_scaled_abs k b / 10 ^ k)) <=? (if (Z.to_nat k =? 1)%nat then 4 else 2))%nat.
+  (List.length (itoa (f32_scaled_abs k b / 10 ^ k)) <=? (if (Z.to_nat k =? 1)%nat then 3 else 2))%nat.
 
 Lemma read_dec_fmt k b : k = 1 \/ k = 2 -> f32_finite b = true ->
   read_dec (Z.to_nat k) (fmt_f32 k b) = Some (fmt_strict k b, f32_scaled k b).
@@ -124,7 +124,7 @@ Proof.
      | (ip, fp, true) =>
        if digits_nonempty ip && digits_nonempty fp && (List.length fp =? Z.to_nat k)%nat then
          let v := dec_val ip 0 * 10 ^ Z.of_nat (Z.to_nat k) + dec_val fp 0 in
-         Some ((List.length ip <=? (if (Z.to_nat k =? 1)%nat then 4 else 2))%nat, if neg then - v else v)
+         Some ((List.length ip <=? (if (Z.to_nat k =? 1)%nat then 3 else 2))%nat, if neg then - v else v)
        else None
      | _ => None
      end = Some (fmt_strict k b, if neg then - r else r)).
